@@ -380,6 +380,7 @@ pub fn worker(def: &CheckDef, a: &WorkerArgs) -> i32 {
     let mut nontrivial = 0u64;
     let nblocks = (a.total + def.block - 1) / def.block;
     let mut harness_err: Option<String> = None;
+    let mut slowest: (u64, u64) = (0, 0);
     let block_iter: Vec<u64> = match a.careful_block {
         Some(b) => vec![b],
         None => (a.start_block..nblocks).filter(|j| j % a.workers == a.id).collect(),
@@ -399,9 +400,15 @@ pub fn worker(def: &CheckDef, a: &WorkerArgs) -> i32 {
                 let _ = writeln!(o, "S {}", i);
                 let _ = o.flush();
             }
+            let t_run = Instant::now();
             let s = gen_script(def, a.seed, i, a.tier);
             nruns += 1;
-            match exec_guarded(def, &s, &mut stats) {
+            let exec_res = exec_guarded(def, &s, &mut stats);
+            let ms = t_run.elapsed().as_millis() as u64;
+            if ms > slowest.0 {
+                slowest = (ms, i);
+            }
+            match exec_res {
                 ExecOut::Ok(info) => {
                     bh.u(info.hash);
                     if info.nontrivial {
@@ -478,6 +485,8 @@ pub fn worker(def: &CheckDef, a: &WorkerArgs) -> i32 {
     // result file
     let mut r = J::obj();
     r.set("nruns", J::Int(nruns as i64));
+    r.set("slowest_ms", J::Int(slowest.0 as i64));
+    r.set("slowest_index", J::Int(slowest.1 as i64));
     r.set("nontrivial", J::Int(nontrivial as i64));
     r.set("stats", J::from_map(&stats.m));
     r.set("blocks", J::Arr(blocks.iter().map(|(j, h)| J::Arr(vec![J::Int(*j as i64), J::Str(format!("{:016x}", h))])).collect()));
@@ -751,6 +760,7 @@ pub fn run_batch(def: &CheckDef, tier: Tier, seed: u64) -> BatchResult {
     let mut samples: Vec<J> = Vec::new();
     let mut nruns = 0u64;
     let mut nontrivial = 0u64;
+    let mut slowest: (u64, u64) = (0, 0);
     if let Ok(rd) = std::fs::read_dir(&out) {
         let mut names: Vec<String> = rd.flatten().map(|e| e.file_name().to_string_lossy().into_owned()).collect();
         names.sort();
@@ -764,6 +774,10 @@ pub fn run_batch(def: &CheckDef, tier: Tier, seed: u64) -> BatchResult {
                 match json::parse(&txt) {
                     Ok(j) => {
                         nruns += j.get("nruns").and_then(|x| x.as_i64()).unwrap_or(0) as u64;
+                        let sm = j.get("slowest_ms").and_then(|x| x.as_i64()).unwrap_or(0) as u64;
+                        if sm > slowest.0 {
+                            slowest = (sm, j.get("slowest_index").and_then(|x| x.as_i64()).unwrap_or(0) as u64);
+                        }
                         nontrivial += j.get("nontrivial").and_then(|x| x.as_i64()).unwrap_or(0) as u64;
                         if let Some(J::Obj(o)) = j.get("stats") {
                             let mut s2 = Stats::default();
@@ -842,6 +856,8 @@ pub fn run_batch(def: &CheckDef, tier: Tier, seed: u64) -> BatchResult {
     cov.set("calls_into_real_code", J::Int(stats.get("calls") as i64));
     cov.set("runs_per_hour", J::Int(if wall > 0.0 { (nruns as f64 / wall * 3600.0) as i64 } else { 0 }));
     cov.set("workers", J::Int(w as i64));
+    cov.set("slowest_run_ms", J::Int(slowest.0 as i64));
+    cov.set("slowest_run_index", J::Int(slowest.1 as i64));
     let mut faults = BTreeMap::new();
     let mut probes = BTreeMap::new();
     let mut other = BTreeMap::new();
